@@ -125,6 +125,9 @@ func checkPackable(kind string, desc string, sizeFn func() uint, pack func(dst [
 		return
 	}
 	r.DistinctBytes(kind, outs[0])
+	if r.WantSample() && len(outs[0]) > 8 && len(outs[0]) < 80 {
+		r.Sample(map[string]interface{}{"kind": kind, "size": size, "written": hex.EncodeToString(outs[0]), "value": trunc(desc)})
+	}
 }
 
 func clip(b []byte) []byte {
